@@ -678,3 +678,91 @@ pub fn evaluation_order_programs() -> Vec<Vec<Stmt>> {
     }
     out
 }
+
+/// Scope events x kinds of use: a name `i` is declared, then a sequence of events happens, each of which
+/// prints a use of `i` of one of 9 kinds (plain, `i op literal` in both operand orders for an arithmetic and
+/// a comparison operator, compound with another local, assignment, as an argument, as an index) — directly,
+/// inside a block / als branch / one-shot loop that does or does not declare `i` again before the use, inside
+/// a function whose parameter is `i`, or after a second declaration in the same scope. Every printed value
+/// identifies the declaration that was resolved. All sequences of `len` events, at top level, inside a block
+/// and inside a function body (where `i` is a local slot).
+pub fn scope_event_programs(len: usize, f: &mut dyn FnMut(Vec<Stmt>)) {
+    let use_kind = |k: usize| -> Stmt {
+        match k {
+            0 => print1(id("i")),
+            1 => print1(infix(id("i"), Operator::Add, int(1))),
+            2 => print1(infix(id("i"), Operator::Lt, int(30))),
+            3 => print1(infix(int(1), Operator::Add, id("i"))),
+            4 => print1(infix(id("i"), Operator::Multiply, id("j"))),
+            5 => es(assign(id("i"), infix(id("i"), Operator::Add, int(1)))),
+            6 => print1(calln("ident", vec![id("i")])),
+            7 => print1(index(id("arr"), infix(id("i"), Operator::Modulo, int(3)))),
+            _ => print1(infix(infix(id("i"), Operator::Subtract, int(2)), Operator::Multiply, infix(id("i"), Operator::Add, int(2)))),
+        }
+    };
+    const KINDS: usize = 9;
+    // the event menu
+    let mut menu: Vec<Vec<Stmt>> = Vec::new();
+    for k in 0..KINDS {
+        menu.push(vec![use_kind(k)]);
+    }
+    for scope_kind in 0..3 {
+        for shadow in [false, true] {
+            for k in 0..KINDS {
+                let mut b = Vec::new();
+                if shadow {
+                    b.push(let_("i", int(50 + 100 * scope_kind as i64)));
+                }
+                b.push(use_kind(k));
+                if k == 5 {
+                    b.push(print1(id("i")));
+                }
+                menu.push(vec![wrap_scope(scope_kind, b)]);
+            }
+        }
+    }
+    for k in 0..KINDS {
+        let mut body = vec![use_kind(k)];
+        body.push(es(id("i")));
+        menu.push(vec![es(func("g", &["i"], body)), print1(calln("g", vec![int(700)]))]);
+    }
+    menu.push(vec![let_("i", int(60))]);
+    let total = menu.len().pow(len as u32);
+    for code in 0..total {
+        let mut c = code;
+        let mut seq: Vec<Stmt> = vec![let_("i", int(5))];
+        for _ in 0..len {
+            seq.extend(menu[c % menu.len()].iter().cloned());
+            c /= menu.len();
+        }
+        seq.push(print1(id("i")));
+        let pre: Vec<Stmt> = vec![
+            let_("once", int(0)),
+            let_("j", int(3)),
+            let_("arr", array(vec![int(11), int(22), int(33)])),
+            es(func("ident", &["v"], vec![es(id("v"))])),
+        ];
+        for context in 0..3 {
+            let prog: Vec<Stmt> = match context {
+                0 => {
+                    let mut p = pre.clone();
+                    p.extend(seq.clone());
+                    p
+                }
+                1 => {
+                    let mut p = pre.clone();
+                    p.push(Stmt::Block(seq.clone()));
+                    p
+                }
+                _ => {
+                    // inside a function: `i`, `once`, `j` and `arr` are local slots
+                    let mut body: Vec<Stmt> = vec![let_("once", int(0)), let_("j", int(3)), let_("arr", array(vec![int(11), int(22), int(33)]))];
+                    body.extend(seq.clone());
+                    body.push(es(id("i")));
+                    vec![es(func("ident", &["v"], vec![es(id("v"))])), es(func("h", &["n"], body)), print1(calln("h", vec![int(1)]))]
+                }
+            };
+            f(prog);
+        }
+    }
+}
